@@ -20,9 +20,12 @@ Attrs == <<
   [n |-> "build", k |-> "build", alts |-> {S("./ctx"), M2("context", S("./other"), "target", S("prod")), M1("dockerfile", S("Dockerfile.dev"))}],
   [n |-> "env_file", k |-> "env_file", alts |-> {S("./a.env"), Sq1(M2("path", S("./b.env"), "required", B(FALSE)))}],
   [n |-> "volumes", k |-> "volumes", alts |-> {Sq1(BindVol("./data", "/data")), Sq1(BindVol("./other", "/data")), Sq1(BindVol("./more", "/more"))}],
+  [n |-> "logging", k |-> "logging", alts |-> {M2("driver", S("json-file"), "options", M1("max-size", S("1m"))), M1("options", M1("max-file", S("3"))), M1("driver", S("json-file")), M2("driver", S("syslog"), "options", M1("tag", S("t")))}],
+  [n |-> "healthcheck", k |-> "healthcheck", alts |-> {M2("test", Sq2(S("CMD"), S("true")), "interval", S("10s")), M1("test", S("curl -f localhost")), M1("retries", I(3))}],
+  [n |-> "depends_on", k |-> "depends_on", alts |-> {Sq1(S("b")), M1("b", M1("condition", S("service_healthy")))}],
   [n |-> "reset", k |-> "environment", alts |-> {Sq1(S("A=1")), Tagged(Null, "reset")}]
 >>
-Names == <<"a", "b", "c">>
+Names == <<"web.api", "b", "c.v2">>     \* service names may contain dots (a path separator inside the library)
 Absent == [t |-> "absent"]
 \* placement of the bases: file of b, file of c  (file 1 = main, in the project directory; 2 = other file of the project directory; 3 = file in sub/; 4 = file in sub/deep/)
 Dirs == <<<<>>, <<>>, <<"sub">>, <<"sub", "deep">>>>
